@@ -143,6 +143,9 @@ var wireScope = map[string][]string{
 
 // otherScope: scopes of other shared rules, property -> rule -> construct-key patterns (prefix, or *substring).
 var otherScope = map[string]map[string][]string{
+	// the 4-byte limit of a delta time is a matter of file well-formedness (C08); C02 is stated below 2^28 ticks
+	"C02": {"TRACKCOUNT": {"!midix|delta"}},
+	"C06": {"TRACKCOUNT": {"!midix|delta"}},
 	// a log line or any other print on stdout lands in front of the MIDI bytes when the file goes to stdout
 	"C08": {"IOLAYER": {"*|os.Stdout", "*|fmt.Print", "*|cobra.Out"}},
 	// the search over the interval table ranges over a map: it is deterministic only while exactly one row qualifies
@@ -176,6 +179,20 @@ func init() {
 func (pd *propDef) inScope(rule, key string) bool {
 	pfx, ok := pd.Scope[rule]
 	if !ok || key == "floor" || strings.HasPrefix(key, "anchor:") {
+		return true
+	}
+	// patterns: prefix, *substring, or !prefix (exclusion; a scope made of exclusions only includes everything else)
+	onlyExcl := true
+	for _, p := range pfx {
+		if strings.HasPrefix(p, "!") {
+			if strings.HasPrefix(key, p[1:]) {
+				return false
+			}
+			continue
+		}
+		onlyExcl = false
+	}
+	if onlyExcl {
 		return true
 	}
 	for _, p := range pfx {
